@@ -11,7 +11,7 @@ SUMS = {}
 def mk_sum_term(k, lo, hi, body):
     """Sum_{lo <= k < hi} body as  u_sum(lambda k. body, lo, hi)  -- canonical through z3 hash-consing of the
     lambda term; congruence gives equality of syntactically equal sums."""
-    lam = z3.Lambda([k], V.z3real(body))
+    lam = V.canon_lambda([k], V.z3real(body))
     f = _sumfun()
     return f(lam, V.z3int(lo), V.z3int(hi))
 
@@ -27,16 +27,27 @@ def _sumfun():
 
 
 def sum_axioms():
-    """unfolding at the upper end, empty range, and extensionality on the summed range"""
+    """SMT axioms about u_sum; each is the lemma of the same name in qvc.lemmalib, proved by Lean on the runs that
+    use sums: extensionality on the summed range, empty range, unfolding at the upper end"""
+    if not _SF:
+        return []
     f = _sumfun()
     F = z3.Const("F", z3.ArraySort(z3.IntSort(), z3.RealSort()))
     G = z3.Const("G", z3.ArraySort(z3.IntSort(), z3.RealSort()))
-    lo, hi = z3.Ints("lo hi")
+    lo, hi, i = z3.Ints("lo hi i")
     return [
+        z3.ForAll([F, G, lo, hi],
+                  z3.Implies(z3.ForAll([i], z3.Implies(z3.And(lo <= i, i < hi), z3.Select(F, i) == z3.Select(G, i))),
+                             f(F, lo, hi) == f(G, lo, hi)),
+                  patterns=[z3.MultiPattern(f(F, lo, hi), f(G, lo, hi))]),
         z3.ForAll([F, lo, hi], z3.Implies(hi <= lo, f(F, lo, hi) == 0), patterns=[f(F, lo, hi)]),
-        z3.ForAll([F, lo, hi], z3.Implies(hi >= lo, f(F, lo, hi + 1) == f(F, lo, hi) + z3.Select(F, hi)),
+        z3.ForAll([F, lo, hi], z3.Implies(lo <= hi, f(F, lo, hi + 1) == f(F, lo, hi) + z3.Select(F, hi)),
                   patterns=[f(F, lo, hi + 1)]),
     ]
+
+
+def uses_sums():
+    return bool(_SF)
 
 
 def mk_sum(ex, n, cell, lo=0):
